@@ -255,6 +255,13 @@ func AccessorAliasRule(w *World, r *Result, rule string) {
 							}
 						}
 					}
+				case *ssa.Store:
+					// put into a list of expressions that is evaluated as a whole
+					if x.Val == v {
+						if _, isElem := x.Addr.(*ssa.IndexAddr); isElem {
+							return true
+						}
+					}
 				case *ssa.Phi, *ssa.ChangeInterface, *ssa.MakeInterface:
 					if use(x.(ssa.Value), d+1) {
 						return true
